@@ -412,7 +412,51 @@ def b_print(I, args, kw):
     return None
 
 
+def _quantified(I, gen, want):
+    """any()/all() of a generator expression over a sequence of symbolic length:  exists / forall over the index.
+    want=True: any -> witness index with (conditions and element);  want=False: all -> witness index with (conditions and not element).
+    The other branch is the universally quantified schema over the index.  The element and the conditions must be closed boolean formulas."""
+    import z3
+    from .engine import GenVal, SymSeq, Env, Unsupported, is_z3
+    if not isinstance(gen, GenVal) or len(gen.node.generators) != 1:
+        return None
+    g = gen.node.generators[0]
+    first = I.eval(g.iter, gen.env)
+    seq = first if isinstance(first, SymSeq) else I.world.as_symseq(I, first)
+    if seq is None:
+        return ('concrete', first)
+    ctx = I.ctx
+
+    def at(idx):
+        sub = Env(dict(), gen.env.func, gen.env, gen.env.module, set())
+        I.assign(g.target, seq.at(idx), sub)
+        fs = []
+        for c in list(g.ifs) + [gen.node.elt]:
+            v = I.eval(c, sub)
+            if isinstance(v, bool):
+                fs.append(z3.BoolVal(v))
+            elif is_z3(v) and z3.is_bool(v):
+                fs.append(v)
+            else:
+                raise Unsupported('any()/all() over a symbolic sequence: element is not a closed boolean formula')
+        conds, e = fs[:-1], fs[-1]
+        hit = e if want else z3.Not(e)
+        return z3.And(conds + [hit])
+    n = seq.length
+    if ctx.choose([True, True], 'quantified-generator') == 0:
+        w = ctx.fresh('witness', 'int')
+        ctx.assume(z3.And(0 <= w, w < n))
+        ctx.assume(at(w))
+        return ('decided', want)
+    i = ctx.fresh('qi', 'int')
+    ctx.assume_forall([i], z3.Implies(z3.And(0 <= i, i < n), z3.Not(at(i))), 'no index satisfies the generator')
+    return ('decided', not want)
+
+
 def b_any(I, args, kw):
+    q = _quantified(I, args[0], True)
+    if q is not None and q[0] == 'decided':
+        return q[1]
     for x in I.iterate(args[0]):
         if I.truth(x):
             return True
@@ -420,6 +464,9 @@ def b_any(I, args, kw):
 
 
 def b_all(I, args, kw):
+    q = _quantified(I, args[0], False)
+    if q is not None and q[0] == 'decided':
+        return q[1]
     for x in I.iterate(args[0]):
         if not I.truth(x):
             return False
